@@ -126,6 +126,11 @@ pub(crate) struct Stack {
 }
 
 impl Stack {
+    #[cfg(boa_verif)]
+    pub(crate) fn verif_len(&self) -> usize {
+        self.stack.len()
+    }
+
     /// Creates a new stack with the given capacity.
     fn new(capacity: usize) -> Self {
         Self {
